@@ -95,6 +95,15 @@ def run_analysis(F):
     entries = entry_table(F)
     an = ranges.Analysis(F)
     an.run(entries)
+    # second pass, "unvalidated" taint (survives >> and /): only its unwrap alarms are used -- a query that returns None for an
+    # out-of-range argument is unwrapped on a value derived from an unchecked caller argument
+    an2 = ranges.Analysis(F, mode="unvalidated")
+    an2.run(entries)
+    for key, a in an2.alarms.items():
+        if a["kind"] == "unwrap" and key not in an.alarms:
+            an.alarms[key] = a
+            an.raw_params.setdefault(a["fn"], set()).update(an2.raw_params.get(a["fn"], ()))
+    an.sites += sum(1 for a in an2.alarms.values() if a["kind"] == "unwrap")
     return entries, an
 
 
